@@ -386,6 +386,138 @@ func TestVerifC14TOTP(t *testing.T) {
 		c14GenTOTP, c14CheckTOTP)
 }
 
+// ------------------------------------------------------------ (b2) escalation of the lock-out
+
+// c14EscCase: Rounds rounds of five evaluated failures each; the length of the
+// lock-out that follows round k is *measured* (right code presented every
+// Step minutes of virtual time until it is accepted) in a fresh world that
+// went through rounds 1..k, having sat out the earlier lock-outs for their
+// measured length plus Idle minutes. Nothing is assumed about the lengths
+// themselves: the oracle is relational.
+type c14EscCase struct {
+	Rounds int   `json:"rounds"`  // 2..3
+	GapMs  int64 `json:"gap_ms"`  // virtual time between two failures of a round
+	Step   int64 `json:"step"`    // probe spacing, minutes
+	Idle   int64 `json:"idle"`    // extra minutes sat out after a measured lock-out
+	ProbeW bool  `json:"probe_w"` // also present wrong codes during the lock-outs that are sat out
+}
+
+func c14GenEsc(t *rapid.T) c14EscCase {
+	return c14EscCase{
+		Rounds: rapid.IntRange(2, 3).Draw(t, "rounds"),
+		GapMs:  rapid.SampledFrom([]int64{2500, 3000, 10000, 60000, 5 * 60000}).Draw(t, "gap"),
+		Step:   rapid.SampledFrom([]int64{5, 10, 15, 20}).Draw(t, "step"),
+		Idle:   rapid.SampledFrom([]int64{1, 5, 15}).Draw(t, "idle"),
+		ProbeW: rapid.Bool().Draw(t, "probe_w"),
+	}
+}
+
+const c14EscMaxProbeMin = 12 * 60
+
+// c14MeasureLockout returns the virtual minutes between the last failure of
+// round k and the first accepted right code (-1: not accepted within
+// c14EscMaxProbeMin), having sat out the lock-outs of rounds 1..k-1 for
+// prev[j]+Idle minutes.
+func c14MeasureLockout(c c14EscCase, k int, prev []int64, res *vResult) (int64, bool) {
+	w := vNewWorld(vWorldOpts{CertBackends: []string{"TOTP"}, WebUIBackends: []string{"password"},
+		Users: map[string]string{vUserAlice: vPwAlice}, EnableLocalTOTP: true})
+	defer w.Close()
+	w.vSetTOTP(vUserAlice, vTOTPSecretAlice)
+	present := func(right bool) (bool, bool) {
+		code := vTOTPCode(vTOTPSecretAlice, time.Now())
+		if !right {
+			code = fmt.Sprintf("%06d", (atoiSafe(code)+777777)%1000000)
+		}
+		req := vFormRequest("POST", totpAuthPath, url.Values{"OTP": {code}})
+		w.applyCred(req, vCred{Kind: "cookie", Bits: AuthTypePassword}, vUserAlice)
+		resp := vServe(w.state.TOTPAuthHandler, req)
+		if resp.Panic != "" {
+			res.violate("panic:totp", "TOTPAuth panicked: %s", firstLine(resp.Panic))
+			return false, false
+		}
+		return resp.Code == 200, true
+	}
+	for round := 1; round <= k; round++ {
+		for i := 0; i < 5; i++ {
+			c14Shift(w, vUserAlice, time.Duration(c.GapMs)*time.Millisecond)
+			acc, ok := present(false)
+			if !ok {
+				return 0, false
+			}
+			if acc {
+				res.violate("wrong-code-accepted", "round %d failure %d: wrong code accepted", round, i)
+				return 0, false
+			}
+		}
+		if round == k {
+			break
+		}
+		// sit the lock-out of this round out
+		wait := prev[round-1] + c.Idle
+		if c.ProbeW {
+			// attempts made while locked out must not shorten anything
+			c14Shift(w, vUserAlice, time.Duration(wait/2)*time.Minute)
+			if _, ok := present(false); !ok {
+				return 0, false
+			}
+			c14Shift(w, vUserAlice, time.Duration(wait-wait/2)*time.Minute)
+		} else {
+			c14Shift(w, vUserAlice, time.Duration(wait)*time.Minute)
+		}
+	}
+	for m := int64(0); m <= c14EscMaxProbeMin; m += c.Step {
+		if m > 0 {
+			c14Shift(w, vUserAlice, time.Duration(c.Step)*time.Minute)
+		} else {
+			c14Shift(w, vUserAlice, 2500*time.Millisecond)
+		}
+		acc, ok := present(true)
+		if !ok {
+			return 0, false
+		}
+		if acc {
+			return m, true
+		}
+	}
+	return -1, true
+}
+
+func c14CheckEsc(c c14EscCase) *vResult {
+	res := &vResult{}
+	var measured []int64
+	for k := 1; k <= c.Rounds; k++ {
+		l, ok := c14MeasureLockout(c, k, measured, res)
+		if !ok {
+			return res
+		}
+		if l < 0 {
+			// longer than the probing horizon: nothing to compare with
+			res.label("lockout-beyond-horizon")
+			break
+		}
+		if k == 1 && l == 0 {
+			res.violate("no-lockout", "right code accepted 2.5 s after the 5th consecutive failure (gap %d ms)", c.GapMs)
+			return res
+		}
+		if k > 1 && l <= measured[k-2] {
+			res.violate("lockout-not-escalating", "lock-out after %d failures measured %d min, after %d failures %d min (probe step %d min, gap %d ms, idle %d min, attempts while locked %v)",
+				5*(k-1), measured[k-2], 5*k, l, c.Step, c.GapMs, c.Idle, c.ProbeW)
+			return res
+		}
+		measured = append(measured, l)
+	}
+	res.Desc = fmt.Sprintf("rounds=%d gap=%d step=%d idle=%d probe_w=%v", c.Rounds, c.GapMs, c.Step, c.Idle, c.ProbeW)
+	res.NonTrivial = len(measured) >= 2
+	res.label(fmt.Sprintf("rounds-measured:%d", len(measured)))
+	return res
+}
+
+func TestVerifC14Escalation(t *testing.T) {
+	vRunRapid(t,
+		"rapid: {2-3 rounds of five spaced failures} x {gap between failures 2.5 s-5 min} x {probe step 5-20 min} x {idle time after a sat-out lock-out} x {wrong attempts during a sat-out lock-out}; the lock-out after round k is measured by presenting the right code every step (time shifting) in a fresh world; relational oracle: a lock-out exists after 5 failures and the one after 5(k+1) consecutive failures is strictly longer than the one after 5k; non-trivial = at least two lock-outs measured; distinct = parameter tuple",
+		c14GenEsc, c14CheckEsc)
+}
+
 // ------------------------------------------------------------ (c) concurrent presentations
 
 type c14ConcCase struct {
